@@ -27,6 +27,7 @@ LEVEL_TEXT = (
     "them to each command through Program.from_source, with two different marker values. Sampled, not exhaustive."
     " Whole generated models (every result's missing cells against the reference after Program.run) and the marker cases through the NetCDF reader (fill-value masks, with and without a MissingValue of the reader's own) are further parts."
 )
+LEVEL_TEXT += ' Added later: an enumerated part reading NetCDF variables of every stored type under every DataType with markers that alias a cell in another number representation; leading inputs that are complete layers of one extreme value.'
 LEVEL_NOTE = "Trusts numpy.ma and the reference mask rule in vcheck/ref; NetCDF fill-value reading is covered under C18."
 RULE = (
     "Hypothesis draws (command, parameters, input arrays with masks none/some/single/all/all-false, payload A under the "
